@@ -317,6 +317,48 @@ func factsReceive() {
 		append(callSeq(body(fn(gf, "noopGate", "Start")), "Start", "Done", "Inc", "Dec", "Err"), callSeq(body(fn(gf, "noopGate", "Done")), "Start", "Done", "Inc", "Dec")...))
 	lf := parse("pkg/receive/limiter.go")
 	emitStr("limiterGateCond", "pkg/receive/limiter.go loadConfig: when a write gate is built", firstIfCond(body(fn(lf, "Limiter", "loadConfig")), "maxWriteConcurrency"))
+	// C24: the gate has an identity — where it is constructed, stored and handed out
+	var builtIn, assignedIn, wgBody []string
+	if lf != nil {
+		for _, d := range lf.Decls {
+			fd, ok := d.(*ast.FuncDecl)
+			if !ok || fd.Body == nil {
+				continue
+			}
+			if len(calls(fd.Body, "gate.New")) > 0 {
+				builtIn = append(builtIn, fd.Name.Name)
+			}
+			assigns := false
+			ast.Inspect(fd.Body, func(n ast.Node) bool {
+				switch x := n.(type) {
+				case *ast.AssignStmt:
+					for _, l := range x.Lhs {
+						if strings.HasSuffix(text(l), ".writeGate") {
+							assigns = true
+						}
+					}
+				case *ast.KeyValueExpr:
+					if text(x.Key) == "writeGate" {
+						assigns = true
+					}
+				}
+				return true
+			})
+			if assigns {
+				assignedIn = append(assignedIn, fd.Name.Name)
+			}
+		}
+		if wg := fn(lf, "Limiter", "WriteGate"); wg != nil && wg.Body != nil {
+			for _, st := range wg.Body.List {
+				wgBody = append(wgBody, text(st))
+			}
+		}
+	}
+	emitList("limiterGateBuiltIn", "pkg/receive/limiter.go: functions that call gate.New", builtIn)
+	emitList("limiterGateAssignedIn", "pkg/receive/limiter.go: functions that assign the writeGate field", assignedIn)
+	emitList("limiterWriteGateBody", "pkg/receive/limiter.go Limiter.WriteGate: its statements", wgBody)
+	emitList("limiterLoadConfigSeq", "pkg/receive/limiter.go loadConfig: lock, deferred unlock, construction of the gate",
+		callSeq(body(fn(lf, "Limiter", "loadConfig")), "l.Lock", "l.Unlock", "gate.New"))
 	emitList("limiterDefaultGate", "pkg/receive/limiter.go NewLimiter: the gate a new limiter starts with",
 		callSeq(body(fn(lf, "", "NewLimiter")), "gate.NewNoop", "gate.New"))
 	emitList("receiveOTLPHTTPGate", "pkg/receive/handler_otlp.go receiveOTLPHTTP: gate skeleton", gateSkeleton(fn(fo, "Handler", "receiveOTLPHTTP")))
